@@ -161,41 +161,79 @@ theorem C07_guaranteed_trigger_adaptive (s : Adaptive) (now : Int)
   simp only [hc, if_true, Adaptive.cleanup]
   exact ⟨trivial, trivial⟩
 
-/-- **ProbabilisticStore**: the write whose operation number is a multiple of `N ≥ 1` sweeps, as
-    long as the 64-bit product `ops × 2654435761` has not wrapped (≈ 6.9·10^9 writes) -/
-theorem C07_guaranteed_trigger_probabilistic_partial (s : Prob) (now : Int) (hN : 1 ≤ s.modulus)
-    (hdiv : (s.opsCount + 1) % s.modulus = 0)
-    (hnowrap : (s.opsCount + 1) * 2654435761 < 18446744073709551616) :
+/-- **probabilistic store: every N-th write is a cleanup point** - for EVERY operation count (the
+    product `count * 2654435761` is formed in 128 bits since the repair, so it never wraps): the write
+    whose operation number is a multiple of `N` sweeps. -/
+theorem C07_guaranteed_trigger_probabilistic (s : Prob) (now : Int) (hN : 1 ≤ s.modulus)
+    (hdiv : (s.opsCount + 1) % s.modulus = 0) :
     (s.maybeCleanup now).data = s.data.sweep now := by
   unfold Prob.maybeCleanup
   have hf : Prob.fires (s.opsCount + 1) s.modulus = true := by
-    unfold Prob.fires PROB_MULT TWO64
-    have hm : Gen.PROB_MULT = 2654435761 := rfl
-    rw [hm]
+    unfold Prob.fires
     have h0 : s.modulus ≠ 0 := by omega
     simp only [h0, if_false, decide_eq_true_eq]
-    rw [Nat.mod_eq_of_lt hnowrap]
     have : s.modulus ∣ (s.opsCount + 1) := Nat.dvd_of_mod_eq_zero hdiv
     exact Nat.mod_eq_zero_of_dvd (Nat.dvd_trans this (Nat.dvd_mul_right _ _))
   simp only [hf, if_true]
 
-/-- when `N` is a power of two the trigger is exact for EVERY operation count, wrapped or not:
-    the write whose operation number is a multiple of `N` sweeps (the multiplier is odd, and
-    `2^k` divides `2^64`) -/
-theorem C07_guaranteed_trigger_probabilistic_pow2 (s : Prob) (now : Int) (k : Nat) (hk : k ≤ 64)
-    (hN : s.modulus = 2 ^ k) (hdiv : (s.opsCount + 1) % 2 ^ k = 0) :
-    (s.maybeCleanup now).data = s.data.sweep now := by
-  unfold Prob.maybeCleanup
-  have hf : Prob.fires (s.opsCount + 1) s.modulus = true := by
-    unfold Prob.fires TWO64
-    have h64 : (18446744073709551616 : Nat) = 2 ^ 64 := by decide
-    have hpos : (2 : Nat) ^ k ≠ 0 := Nat.pos_iff_ne_zero.mp (Nat.pow_pos (by decide))
-    rw [hN]
-    simp only [hpos, if_false, decide_eq_true_eq]
-    rw [h64, Nat.mod_mod_of_dvd _ (Nat.pow_dvd_pow 2 hk)]
-    have : 2 ^ k ∣ (s.opsCount + 1) := Nat.dvd_of_mod_eq_zero hdiv
-    exact Nat.mod_eq_zero_of_dvd (Nat.dvd_trans this (Nat.dvd_mul_right _ _))
-  simp only [hf, if_true]
+/-- ... so among ANY `N` consecutive writes (operation numbers `c+1 … c+N`) at least one sweeps,
+    whatever the count `c` the store has reached -/
+theorem C07_probabilistic_every_window (c N : Nat) (hN : 1 ≤ N) :
+    ∃ i, i < N ∧ Prob.fires (c + 1 + i) N = true := by
+  have hpos : 0 < N := hN
+  have hr : (c + 1) % N < N := Nat.mod_lt _ hpos
+  refine ⟨(N - (c + 1) % N) % N, Nat.mod_lt _ hpos, ?_⟩
+  unfold Prob.fires
+  have h0 : N ≠ 0 := by omega
+  simp only [h0, if_false, decide_eq_true_eq]
+  have hdvd : N ∣ c + 1 + (N - (c + 1) % N) % N := by
+    apply Nat.dvd_of_mod_eq_zero
+    rw [Nat.add_mod, Nat.mod_mod]
+    by_cases hz : (c + 1) % N = 0
+    · simp [hz]
+    · have : (N - (c + 1) % N) % N = N - (c + 1) % N := Nat.mod_eq_of_lt (by omega)
+      rw [this]
+      have : (c + 1) % N + (N - (c + 1) % N) = N := by omega
+      rw [this, Nat.mod_self]
+  exact Nat.mod_eq_zero_of_dvd (Nat.dvd_trans hdvd (Nat.dvd_mul_right _ _))
+
+/-- and it is EXACTLY every N-th write when `N` has no factor in common with the multiplier (a prime
+    above 2^31, so every `N` below it; the default 10 000 is checked below): no other write sweeps -/
+theorem C07_probabilistic_trigger_exact (ops N : Nat) (hN : 1 ≤ N) (hc : Nat.Coprime N PROB_MULT) :
+    Prob.fires ops N = true ↔ ops % N = 0 := by
+  unfold Prob.fires
+  have h0 : N ≠ 0 := by omega
+  simp only [h0, if_false, decide_eq_true_eq]
+  constructor
+  · intro h
+    exact Nat.mod_eq_zero_of_dvd (hc.dvd_of_dvd_mul_right (Nat.dvd_of_mod_eq_zero h))
+  · intro h
+    exact Nat.mod_eq_zero_of_dvd (Nat.dvd_trans (Nat.dvd_of_mod_eq_zero h) (Nat.dvd_mul_right _ _))
+
+example : Nat.Coprime Gen.PROB_DEFAULT_MODULO PROB_MULT := by decide      -- the library default, 1000
+example : Nat.Coprime 10000 PROB_MULT := by decide                       -- the server's default
+
+/-- what was wrong before the repair (finding F8, `fixed` in KNOWN_FINDINGS.jsonl): with the 64-bit
+    WRAPPING product the default store (`N = 1000`) in the state it has after 6 949 403 000 writes
+    goes 1000 consecutive writes - in fact 1055 - without a cleanup (kernel-evaluated); the server's
+    default `N = 10 000` first does so after 34 747 006 224 writes (19 055 writes without a cleanup) -/
+theorem C07_wrapped_trigger_gap :
+    (∀ i, i < 1055 → Prob.firesWrapped (6949403000 + 1 + i) 1000 = false) ∧
+    (∀ i, i < 19055 → Prob.firesWrapped (34747006224 + 1 + i) 10000 = false) := by
+  have h1 : (List.range 1055).all (fun i => !Prob.firesWrapped (6949403000 + 1 + i) 1000) = true := by
+    decide +kernel
+  have h2 : (List.range 19055).all (fun i => !Prob.firesWrapped (34747006224 + 1 + i) 10000) = true := by
+    decide +kernel
+  constructor
+  · intro i hi
+    have := List.all_eq_true.mp h1 i (List.mem_range.mpr hi)
+    simpa using this
+  · intro i hi
+    have := List.all_eq_true.mp h2 i (List.mem_range.mpr hi)
+    simpa using this
+
+/-- the same writes under the repaired trigger: the 1000-th after 6 949 403 000 sweeps -/
+example : Prob.fires (6949403000 + 1 + 999) 1000 = true := by decide +kernel
 
 /-- with modulus 1 EVERY write sweeps, wrapped or not -/
 theorem C07_guaranteed_trigger_probabilistic_every (s : Prob) (now : Int) (hN : s.modulus = 1) :
@@ -227,9 +265,9 @@ theorem C07_reclaimed_adaptive (s : Adaptive) (hd : NodupKeys s.data) (k : Key) 
 
 theorem C07_reclaimed_probabilistic (s : Prob) (hd : NodupKeys s.data) (k : Key) (v ttl now : Int)
     (hN : 1 ≤ s.modulus) (hdiv : (s.opsCount + 1) % s.modulus = 0)
-    (hnowrap : (s.opsCount + 1) * 2654435761 < 18446744073709551616) :
+    :
     AllLiveExcept (Prob.ops.setnx s k v ttl now).1.data now k ∧ NodupKeys (Prob.ops.setnx s k v ttl now).1.data := by
-  have hs := C07_guaranteed_trigger_probabilistic_partial s now hN hdiv hnowrap
+  have hs := C07_guaranteed_trigger_probabilistic s now hN hdiv
   constructor
   · simp only [Prob.ops, hs]
     exact allLive_after_write (o := 0) (n := 0) s.data now k _ (Or.inr rfl)
